@@ -51,10 +51,13 @@ def damage(items, flows, rng):
         items[i] = reframe(it, flows[it.conn].ep, mod)
 
 
-def make_scene(rng, damaged=False):
+def make_scene(rng, damaged=False, other_port=None):
+    """other_port: one more keyed TLS connection, to a server port that is neither a default nor (in the judged run) a selected one"""
     n = rng.choice([1, 2, 3, 4])
     eps = gen.distinct_eps(rng, n, rng.choice(["random", "same-client-host", "same-client-port"]))
     flows = []
+    if other_port:
+        flows.append(gen.random_tls_flow(random.Random(rng.random()), 9, ep=tcpcap.random_ep(random.Random(rng.random()), sport=other_port), nmax=4, min_records=1))
     for i, ep in enumerate(eps):
         if rng.random() < 0.6 and not (damaged and i == 0):
             s = quicsynth.random_qspec(rng, napp=rng.choice([4, 8]))
@@ -177,11 +180,15 @@ def eval_proc(case, rng, thorough):
 
 
 def eval_inproc(case, rng):
+    # a quarter of the pairs: the earlier command selects a server port (and maps it) that the later one does not, and the later capture holds a keyed TLS connection to it
+    port = rng.choice([8443, 4433, 9443, 1234]) if case["i"] % 4 == 0 else None
     fa, capa, keysa = make_scene(rng)
-    fb, capb, keysb = make_scene(rng)
+    fb, capb, keysb = make_scene(rng, other_port=port)
     files = {"a.pcapng": capa, "a.log": keysa, "b.pcapng": capb, "b.log": keysb}
     ea = rng.choice([[], ["-a"], ["-m"], ["-p", "8443"]])
     eb = rng.choice([[], ["-a"], ["-m"]])
+    if port:
+        ea = rng.choice([["-p", str(port)], ["-p", str(port), "-m", f"{port}:9999"], ["-m", f"443:{port}", "-p", str(port), "8081"]])
     argv_a = ["-i", "{dir}/a.pcapng", "-o", "{dir}/outa.pcapng", "-s", "{dir}/a.log"] + ea
     argv_b = ["-i", "{dir}/b.pcapng", "-o", "{dir}/outb.pcapng", "-s", "{dir}/b.log"] + eb
     # a third of the pairs: the earlier run does not finish - capture cut inside a block, capture file missing, key-log file missing (exit())
